@@ -89,20 +89,20 @@ SPEC = [
     # round-3 seeded changes; flag x = extended (quick tier: fewer rotations, no depth-2 nesting)
     ("bind_stmt", "bind(c, name='{s1}') :: {n1}", "x"),
     ("bind_stmt_nocolons", "bind(c) {n1}, /{n2}/", "x"),
-    ("data_implied", "data ({n1}({n2}), {n2} = 1, {d1}, 2) /{d2}*0/", "fix x"),
+    ("data_implied", "data ({n1}({n2}), {n2} = 1, {d1}, 2) /{d2}*0/", "fix x one"),
     ("data_two", "data {n1}, {n2} /{d1}, {d2}/, {n3} /{d3}*1.0/", "fix x"),
     ("common_blank", "common // {n1}, {n2}({d1})", "fix x"),
-    ("common_two", "common /{n1}/ {n2} /{n3}/ {n4}, {n5}", "fix x"),
-    ("dimension_two", "dimension {n1}({d1}), {n2}(0:{d2}, {d3})", "fix x"),
-    ("implicit_two", "implicit integer (i-k), real*8 (z)", "fix x"),
+    ("common_two", "common /{n1}/ {n2} /{n3}/ {n4}, {n5}", "fix x one"),
+    ("dimension_two", "dimension {n1}({d1}), {n2}(0:{d2}, {d3})", "fix x one"),
+    ("implicit_two", "implicit integer (i-k), real*8 (z)", "fix x one"),
     ("namelist_two", "namelist /{n1}/ {n2}, {n3} /{n4}/ {n5}", "fix x"),
-    ("equivalence_two", "equivalence ({n1}, {n2}({d1})), ({n3}, {n4})", "fix x"),
+    ("equivalence_two", "equivalence ({n1}, {n2}({d1})), ({n3}, {n4})", "fix x one"),
     ("char_sel_both", "character({d1}, {n1}) :: {n2}", "fix x"),
     ("char_old_len", "character*{d1} {n1}, {n2}*{d2}", "fix x"),
     ("char_assumed", "character*(*) {n1}", "fix x"),
     ("use_only_rename", "use {n1}, only: {n2} => {n3}, operator(.{o1}.), {n4}", "x"),
     ("use_nonintrinsic", "use, non_intrinsic :: {n1}", "x"),
-    ("use_only_empty", "use {n1}, only:", "x"),
+    ("use_only_empty", "use {n1}, only:", "x one"),
     ("use_rename_op", "use {n1}, operator(.{o1}.) => operator(.plus.)", "x"),
     ("derived_type_param", "type {n1}({n2})\n  integer, kind :: {n2} = {d1}\n  real({n2}) :: {n3}\nend type {n1}", "x"),
     ("derived_type_abstract", "type, abstract, bind(c) :: {n1}\nend type", "x"),
@@ -122,9 +122,9 @@ SPEC = [
     ("format_nested", "{L1} format ({d1}(i2, 2(f4.1, '{s1}')), a{d2})", "fix x"),
     ("format_star", "{L1} format (*(i{d1}, :, ','))", "f08 x"),
     ("codimension_explicit", "real, codimension[{d1}, 1:{d2}, *] :: {n1}", "f08 x"),
-    ("save_all", "save", "fix x"),
-    ("save_common", "save /{n1}/, {n2}", "fix x"),
-    ("external_many", "external :: {n1}, {n2}", "x"),
+    ("save_all", "save", "fix x one"),
+    ("save_common", "save /{n1}/, {n2}", "fix x one"),
+    ("external_many", "external :: {n1}, {n2}", "x one"),
     ("access_stmt", "private :: {n1}, operator(.{o1}.)", "mod x"),
     ("protected", "real, protected :: {n1}", "mod x"),
     ("value_attr", "integer, value :: {n1}", "x"),
@@ -198,56 +198,56 @@ EXEC = [
     ("ptr_assign_bounds", "{n1}({d1}:) => {n2}", "x"),
     ("ptr_assign_remap", "{n1}(1:{d1}, 1:{d2}) => {n2}", "x"),
     ("ptr_assign_comp", "{n1}%{n2} => {n3}%{n4}", "x"),
-    ("ptr_assign_null", "{n1} => null()", "x"),
-    ("allocate_bounds", "allocate({n1}({d1}:{d2}, 0:{n2}))", "x"),
+    ("ptr_assign_null", "{n1} => null()", "x one"),
+    ("allocate_bounds", "allocate({n1}({d1}:{d2}, 0:{n2}))", "x one"),
     ("allocate_typed", "allocate(real :: {n1}({d1}))", "x"),
     ("allocate_source", "allocate({n1}, source = {n2}, stat = {n3}, errmsg = {n4})", "x"),
     ("allocate_char", "allocate(character(len={d1}) :: {n1})", "x"),
-    ("deallocate_stat", "deallocate({n1}, {n2}, stat = {n3})", "x"),
+    ("deallocate_stat", "deallocate({n1}, {n2}, stat = {n3})", "x one"),
     ("arrcons_typed", "{n1} = (/ integer :: {d1}, {d2} /)", "x"),
-    ("arrcons_implied", "{n1} = (/ ({n2} * 2, {n2} = 1, {d1}) /)", "fix x"),
+    ("arrcons_implied", "{n1} = (/ ({n2} * 2, {n2} = 1, {d1}) /)", "fix x one"),
     ("arrcons_implied2", "{n1} = (/ (({n2} + {n3}, {n2} = 1, {d1}, 2), {n3} = 1, {d2}) /)", "fix x"),
     ("arrcons_square", "{n1} = [{d1}, {d2}, {n2}]", "x"),
     ("arrcons_empty", "{n1} = [integer ::]", "x"),
-    ("print_implied", "print *, ({n1}({n2}), {n2} = 1, {d1})", "fix x"),
+    ("print_implied", "print *, ({n1}({n2}), {n2} = 1, {d1})", "fix x one"),
     ("print_implied_rel", "print *, ({n1}({n2}) >= {d2}, {n2} = 1, {d1})", "fix x"),
     ("write_implied_nested", "write(*, *) (({n1}({n2}, {n3}), {n2} = 1, {d1}), {n3} = 1, {d2}, 2)", "fix x"),
     ("read_label", "read {L1}, {n1}\n{L1} format (i{d1})", "fix x"),
-    ("read_star_only", "read *, {n1}, {n2}", "fix x"),
-    ("read_many_kw", "read(unit = {d1}, fmt = '(a)', iostat = {n1}, end = {L1}, err = {L2}) {n2}\n{L1} continue\n{L2} continue", "fix x"),
+    ("read_star_only", "read *, {n1}, {n2}", "fix x one"),
+    ("read_many_kw", "read(unit = {d1}, fmt = '(a)', iostat = {n1}, end = {L1}, err = {L2}) {n2}\n{L1} continue\n{L2} continue", "fix x one"),
     ("read_nml", "read({d1}, nml = {n1})", "fix x"),
     ("read_rec", "read({d1}, rec = {n1}) {n2}", "fix x"),
     ("print_label", "print {L1}, {n1}\n{L1} format (i{d1})", "fix x"),
-    ("print_only", "print *", "fix x"),
-    ("write_many_kw", "write(unit = {d1}, fmt = '(a)', iostat = {n1}, err = {L1}, advance = 'no') {n2}\n{L1} continue", "fix x"),
+    ("print_only", "print *", "fix x one"),
+    ("write_many_kw", "write(unit = {d1}, fmt = '(a)', iostat = {n1}, err = {L1}, advance = 'no') {n2}\n{L1} continue", "fix x one"),
     ("write_label_fmt", "write({d1}, {L1}) {n1}\n{L1} format (i{d2})", "fix x"),
-    ("write_internal", "write({n1}, '(i{d1})') {n2}", "fix x"),
-    ("open_reordered", "open(file = '{s1}', unit = {d1}, action = 'read', iostat = {n1})", "fix x"),
+    ("write_internal", "write({n1}, '(i{d1})') {n2}", "fix x one"),
+    ("open_reordered", "open(file = '{s1}', unit = {d1}, action = 'read', iostat = {n1})", "fix x one"),
     ("open_positional", "open({d1}, file = '{s1}', form = 'unformatted', access = 'direct', recl = {d2})", "fix x"),
-    ("close_many", "close({d1}, status = 'keep', iostat = {n1})", "fix x"),
-    ("inquire_file", "inquire(file = '{s1}', exist = {n1}, opened = {n2})", "fix x"),
+    ("close_many", "close({d1}, status = 'keep', iostat = {n1})", "fix x one"),
+    ("inquire_file", "inquire(file = '{s1}', exist = {n1}, opened = {n2})", "fix x one"),
     ("inquire_iolength", "inquire(iolength = {n1}) {n2}, {n3}", "fix x"),
-    ("rewind_kw", "rewind(unit = {d1}, iostat = {n1})", "fix x"),
+    ("rewind_kw", "rewind(unit = {d1}, iostat = {n1})", "fix x one"),
     ("wait_stmt", "wait(unit = {d1})", "x"),
     ("flush_plain", "flush {d1}", "x"),
     ("backspace_plain", "backspace {d1}", "fix x"),
-    ("endfile_kw", "endfile(unit = {d1}, iostat = {n1})", "fix x"),
+    ("endfile_kw", "endfile(unit = {d1}, iostat = {n1})", "fix x one"),
     ("forall_mask", "forall ({n1} = 1:{d1}:2, {n2}({n1}) > 0) {n2}({n1}) = 0", "x"),
     ("where_assign_expr", "where ({n1} /= 0 .and. {n2} > {d1}) {n3} = {n2} / {n1}", "x"),
-    ("call_altreturn", "call {n1}({n2}, *{L1})\n{L1} continue", "fix x"),
-    ("computed_goto_nocomma", "go to ({L1}) {n1}\n{L1} continue", "fix x"),
+    ("call_altreturn", "call {n1}({n2}, *{L1})\n{L1} continue", "fix x one"),
+    ("computed_goto_nocomma", "go to ({L1}) {n1}\n{L1} continue", "fix x one"),
     ("assign_defop_unary", "{n1} = .{o1}. {n2}", "x"),
     ("assign_defop_bin", "{n1} = {n2} .{o1}. {n3} + {d1}", "x"),
     ("assign_concat_rel", "{n1} = {n2} // '{s1}' == {n3}", "fix x"),
-    ("assign_eqv", "{n1} = {n2} .eqv. {n3} .neqv. .false.", "fix x"),
-    ("assign_rel_dot", "{n1} = {n2} .lt. {d1} .or. {n3} .ge. {d2}", "fix x"),
-    ("assign_complex", "{n1} = ({d1}.0, -{d2}.0) * {n2}", "fix x"),
-    ("assign_neg_paren", "{n1} = -(-(+({n2} - {d1})))", "fix x"),
-    ("assign_not_paren", "{n1} = .not. (.not. ({n2} .or. {n3}))", "fix x"),
+    ("assign_eqv", "{n1} = {n2} .eqv. {n3} .neqv. .false.", "fix x one"),
+    ("assign_rel_dot", "{n1} = {n2} .lt. {d1} .or. {n3} .ge. {d2}", "fix x one"),
+    ("assign_complex", "{n1} = ({d1}.0, -{d2}.0) * {n2}", "fix x one"),
+    ("assign_neg_paren", "{n1} = -(-(+({n2} - {d1})))", "fix x one"),
+    ("assign_not_paren", "{n1} = .not. (.not. ({n2} .or. {n3}))", "fix x one"),
     ("assign_kw_call", "{n1} = {n2}({n3}, {n4} = {d1})", "x"),
     ("assign_comp_chain", "{n1}%{n2}({d1})%{n3} = {n4}%{n5}", "x"),
     ("assign_char_kind", "{n1} = {n2}_'{s1}'", "x"),
-    ("assign_dble", "{n1} = {d1}.{d2}d0 + {d3}.d-2 + .5", "fix x"),
+    ("assign_dble", "{n1} = {d1}.{d2}d0 + {d3}.d-2 + .5", "fix x one"),
     ("assign_div_cat", "{n1} = {n2} / {n3} // {n4}", "fix x"),
     ("stop_expr_str", "stop \"{s1}\"", "fix x"),
     ("exit_plain", "do\nexit\nend do", "x"),
